@@ -251,7 +251,12 @@ class Crypto(object):
                 return SBool(fresh("signature_valid", z3.BoolSort()))
             if name == 'create_symmetric_key':
                 from kmip.core import enums
-                return {'value': tb('key'), 'format': enums.KeyFormatType.RAW}
+                key = tb('key')
+                if len(args) > 1 and not isinstance(args[1], Opaque):
+                    # contract of CryptographyEngine.create_symmetric_key (C06): length // 8 fresh bytes
+                    from .sym import int_term as _it
+                    P.assume(z3.Length(key.chunks[0][1]) * 8 == _it(args[1]))
+                return {'value': key, 'format': enums.KeyFormatType.RAW}
             if name == 'create_asymmetric_key_pair':
                 from kmip.core import enums
                 return ({'value': tb('public'), 'format': enums.KeyFormatType.PKCS_1, 'public_exponent': 65537},
